@@ -422,6 +422,11 @@ class Lifter:
         raise LiftError("bad destination")
 
     def width(self, ins):
+        """operand size of an instruction: the destination (first operand) decides; e.g. `shl QWORD PTR [rdx],cl` is 64-bit"""
+        if ins.ops and ins.ops[0].kind == "reg":
+            return ins.ops[0].w
+        if ins.ops and ins.ops[0].kind == "mem" and ins.ops[0].size:
+            return ins.ops[0].size
         for op in ins.ops:
             if op.kind == "reg":
                 return op.w
@@ -782,7 +787,7 @@ class Lifter:
         elif mn == "fchs":
             L.append("X86_ST (s, 0) = -X86_ST (s, 0);")
         elif mn == "fabs":
-            L.append("if (X86_ST (s, 0) < 0 || (X86_ST (s, 0) == 0 && 1 / X86_ST (s, 0) < 0)) X86_ST (s, 0) = -X86_ST (s, 0);")
+            L.append("X86_ST (s, 0) = x86_fabs (X86_ST (s, 0));")
         elif mn == "fldz":
             L.append("x86_fpush (s, 0.0L);")
         elif mn == "fld1":
